@@ -6,6 +6,7 @@ import (
 	"math"
 	"os"
 	"path/filepath"
+	"runtime/debug"
 	"strconv"
 	"strings"
 	"time"
@@ -137,9 +138,23 @@ func ExpRead(l wsp.Layout, rings []wsp.Ring, sel int, from, until, now int64) (o
 type Executor interface{ Execute() error }
 
 // RunCommand executes a command under the harness clock and recovers panics.
+// TrackLocks, when set, makes RunCommand record in LockLeaks every file a command left locked when it returned
+// (the lock is then released so that the harness can go on).  The collector is switched off meanwhile: a finalizer
+// closing a forgotten handle would otherwise hide the leak at a moment of its own choosing.
+var TrackLocks bool
+var LockLeaks []string
+
 func RunCommand(now int64, cmd Executor) (err error, panicTxt string) {
 	vrt.SetNow(now)
 	defer vrt.SetNow(0)
+	if TrackLocks {
+		old := debug.SetGCPercent(-1)
+		vrt.BeginLockLog()
+		defer func() {
+			LockLeaks = append(LockLeaks, vrt.EndLockLog()...)
+			debug.SetGCPercent(old)
+		}()
+	}
 	p, txt := fw.Guard(func() { err = cmd.Execute() })
 	if p {
 		return nil, txt
